@@ -169,6 +169,9 @@ package flamego
 //@   ensures ctxInv(c)
 //@   ensures ctxStep(old(ctxAligned(c)), old(c.started), old(c.responseWriter.isWritten), ctxAligned(c), c.started, c.responseWriter.isWritten)
 //@   ensures c.index > len(c.handlers) || c.responseWriter.isWritten || lastselect() == 0
+// progress: unless the chain is exhausted or the request is cancelled, the next slot IS started, whatever
+// has been written before (only the automatic advance after a handler returns is gated on Written)
+//@   ensures c.started > old(c.started) || c.index > len(c.handlers) || lastselect() == 0
 //@   loop 0 invariant ctxInv(c)
 //@   loop 0 invariant c.started >= pre(c.started) && (pre(c.responseWriter.isWritten) ==> c.responseWriter.isWritten)
 //@   loop 0 invariant c.started == pre(c.started) || !c.responseWriter.isWritten
@@ -182,6 +185,7 @@ package flamego
 //@   ensures ctxInv(c)
 //@   ensures ctxStep(old(ctxAligned(c)), old(c.started), old(c.responseWriter.isWritten), ctxAligned(c), c.started, c.responseWriter.isWritten)
 //@   ensures c.index > len(c.handlers) || c.responseWriter.isWritten || lastselect() == 0
+//@   ensures c.started > old(c.started) || c.index > len(c.handlers) || lastselect() == 0
 
 //@ func (*context).setAction
 //@   props C03
